@@ -378,8 +378,10 @@ pub fn supervise(args: &Args) -> i32 {
             }
         }
     }
-    // workers stop taking cases at the budget; allow generous slack for the case in flight
-    let deadline = Instant::now() + args.budget + Duration::from_secs(if args.tier.thorough() { 300 } else { 60 });
+    // workers stop taking cases at the budget; allow generous slack for the case in flight (on an overloaded host a
+    // case that takes 20 s alone was seen to take more than a minute; a worker killed here ends the run as a machinery
+    // failure or, if it reproduces, as a hang)
+    let deadline = Instant::now() + args.budget + Duration::from_secs(if args.tier.thorough() { 600 } else { 240 });
     let mut merged = Merged::default();
     let mut died: Vec<(u64, Option<u64>, String)> = vec![];
     let mut harness_err: Vec<String> = vec![];
